@@ -128,9 +128,12 @@ theorem fragStacked_withIdx (f : Frag) (i : Nat) (h : FragStacked f) : FragStack
 
 /-! ### `find_earlier_page_break` keeps the stacking -/
 
+/-- `find_earlier_page_break` keeps the top of the border box of the paragraph it cuts.  (Since /repo 24ce8bf
+the rebuilt box loses its bottom margin, padding and border — `remove_decoration(end=True)` — so its whole
+geometry is no longer kept; the proofs below hold for the definition with and without that step.) -/
 theorem findEarlierPara_geo (id idx : Nat) (st : PStyle) (n : Nat) (g : Geo) (lines : List (Nat × Rat))
     (x' : Frag) (r : Resume) (h : findEarlierPara id idx st n g lines = some (x', r)) :
-    x'.geo = g ∧ FragStacked x' := by
+    x'.geo.borderBoxY = g.borderBoxY ∧ FragStacked x' := by
   unfold findEarlierPara at h
   split at h
   · cases h
@@ -140,7 +143,10 @@ theorem findEarlierPara_geo (id idx : Nat) (st : PStyle) (n : Nat) (g : Geo) (li
     · split at h
       · simp only [Option.some.injEq, Prod.mk.injEq] at h
         obtain ⟨rfl, _⟩ := h
-        exact ⟨rfl, by simp [FragStacked]⟩
+        refine ⟨?_, by simp [FragStacked]⟩
+        cases st with
+        | mk mt mb pt pb bt bb height minH maxH b1 b2 b3 clone page orphans widows isRoot =>
+          cases clone <;> rfl
       · cases h
 
 mutual
@@ -180,15 +186,29 @@ theorem findEarlierGo_stacked : (fs : List Frag) → ∀ (kept : List Frag) (r :
             simp only [Option.some.injEq, Prod.mk.injEq] at h
             obtain ⟨rfl, rfl⟩ := h
             obtain ⟨hgeo, hst⟩ := findEarlierFrag_stacked x x' r1 hfe hk.1
-            refine ⟨by simp only [KidsStacked]; exact ⟨hst, trivial⟩, ?_⟩
-            intro y hy
-            simp only [stackedFrom] at hy ⊢
-            rw [hgeo]
-            exact ⟨hy.1, Or.inl trivial⟩
+            first
+              | -- since /repo 24ce8bf the kept box is `x'.cutEnd`: `x'` without its bottom decoration (same
+                -- top of the border box, same children)
+                (have hst' : FragStacked x'.cutEnd := by
+                   cases x' <;> simpa only [Frag.cutEnd, FragStacked] using hst
+                 have hgeo' : x'.cutEnd.geo.borderBoxY = x.geo.borderBoxY := by
+                   rw [← hgeo]
+                   cases x' <;> simp only [Frag.cutEnd, Frag.geo, Geo.cutBottom, Geo.borderBoxY] <;> split <;> rfl
+                 refine ⟨by simp only [KidsStacked]; exact ⟨hst', trivial⟩, ?_⟩
+                 intro y hy
+                 simp only [stackedFrom] at hy ⊢
+                 rw [hgeo']
+                 exact ⟨hy.1, Or.inl trivial⟩)
+              | -- the definition before that repair: the kept box is `x'` itself
+                (refine ⟨by simp only [KidsStacked]; exact ⟨hst, trivial⟩, ?_⟩
+                 intro y hy
+                 simp only [stackedFrom] at hy ⊢
+                 rw [hgeo]
+                 exact ⟨hy.1, Or.inl trivial⟩)
           · simp at h
         · simp at h
 theorem findEarlierFrag_stacked : (x : Frag) → ∀ (x' : Frag) (r : Resume), findEarlierFrag x = some (x', r) →
-    FragStacked x → x'.geo = x.geo ∧ FragStacked x'
+    FragStacked x → x'.geo.borderBoxY = x.geo.borderBoxY ∧ FragStacked x'
   | .para id idx st n g lines => by
     intro x' r h _
     simp only [findEarlierFrag] at h
@@ -203,7 +223,10 @@ theorem findEarlierFrag_stacked : (x : Frag) → ∀ (x' : Frag) (r : Resume), f
       obtain ⟨rfl, rfl⟩ := h
       obtain ⟨h1, h2⟩ := findEarlierGo_stacked kids kids' r0 hfound hx.2
       obtain ⟨y, hy⟩ := hx.1
-      exact ⟨rfl, by simp only [FragStacked]; exact ⟨⟨y, h2 y hy⟩, h1⟩⟩
+      refine ⟨?_, by simp only [FragStacked]; exact ⟨⟨y, h2 y hy⟩, h1⟩⟩
+      cases st with
+      | mk mt mb pt pb bt bb height minH maxH b1 b2 b3 clone page orphans widows isRoot =>
+        cases clone <;> rfl
     · cases h
 end
 
